@@ -21,7 +21,7 @@ DEFAULT_PROFILE = dict(
     w_string=2, w_unit=1, w_alias=1, w_enum=1, w_char=1, w_extern=0, w_struct=5,
     p_check=0.0, p_ccheck=0.0, user_ctx=0.0,
     p_user_ws=0.0, p_include=0.1, p_lookahead=0.12, p_box=0.15, p_multitype=0.25,
-    p_insens=0.08, p_unicode=0.1, p_keywords=0.0, p_eoi_root=0.6, p_empty_lit=0.02,
+    p_insens=0.12, p_unicode=0.1, p_keywords=0.0, p_eoi_root=0.6, p_empty_lit=0.02,
     leftrec=0.0, p_probe=0.0, p_fields_in_string=0.1,
 )
 
@@ -36,7 +36,7 @@ PROFILES = {
     "dupfields": dict(nrules=(2, 4), depth=4, small_fieldpool=3, p_multitype=0.85, w_struct=8, w_string=3, w_unit=0, w_alias=0,
                       w_enum=0, w_char=1, p_include=0.15, p_lookahead=0.03, p_noskip=0.1, dense_fields=True),
     "leftrec": dict(leftrec=1.0, p_memo=0.1, p_position=0.3, p_check=0.4),
-    "ws": dict(p_noskip=0.5, p_user_ws=0.35, p_include=0.25, w_string=3, p_position=0.3),
+    "ws": dict(p_noskip=0.5, p_user_ws=0.35, p_include=0.25, w_string=3, p_position=0.3, p_ws_lit=0.15),
     "position": dict(p_position=0.8, p_unicode=0.3, w_string=3, w_enum=2, p_memo=0.15, leftrec=0.15),
     "errors": dict(p_lookahead=0.25, p_check=0.25, w_extern=1, w_char=2, p_ccheck=0.3, p_eoi_root=0.8),
     "include": dict(p_include=0.6, p_noskip=0.4, p_position=0.3, p_memo=0.15, p_check=0.15, w_struct=8,
@@ -48,7 +48,7 @@ PROFILES = {
     # are where single-feature profiles are blind; one shared run of this profile is part of most quick tiers
     "mix": dict(p_memo=0.25, leftrec=0.3, p_check=0.35, p_ccheck=0.3, w_extern=2, w_char=2, user_ctx=0.25, p_user_ws=0.2,
                 p_include=0.2, p_position=0.4, p_unicode=0.3, p_lookahead=0.15, p_multitype=0.35, p_box=0.2, w_enum=2,
-                w_alias=1, p_noskip=0.35, p_keywords=0.1, p_insens=0.12, nrules=(3, 8)),
+                w_alias=1, p_noskip=0.35, p_keywords=0.1, p_insens=0.12, nrules=(3, 8), p_ws_lit=0.08),
 }
 
 
@@ -58,7 +58,9 @@ def profile(name):
     return p
 
 
-ASCII_LITS = ["a", "b", "c", "ab", "abc", "ba", "bc", "x", "y", ",", "+", "-", "(", ")", "aa", "=", "xy", ":"]
+ASCII_LITS = ["a", "b", "c", "ab", "abc", "ba", "bc", "x", "y", ",", "+", "-", "(", ")", "aa", "=", "xy", ":",
+              "a1", "x_y", "ab-c", "if(", "b2b", "[a", "@b", "a b"]
+WS_LITS = [" ", " b", "\n", "\tx", " =", "\r\n", "a ", "\x0cb", "  "]
 UNI_LITS = ["é", "ß", "€", "😀", "ab€", "é́", "Ωx", "K", "ü", "日本", " ", " ", "߿", "ࠀ",
             "￿", "\U00010000", "\U0010ffff", "á", "\x7f", "\x80", "\xff"]
 ASCII_RANGES = [("a", "c"), ("a", "z"), ("0", "9"), ("x", "z"), ("A", "Z"), ("b", "b"), (" ", "~"), ("c", "a")]
@@ -84,6 +86,8 @@ class Gen:
             return Lit("")
         uni = self.coin(self.p["p_unicode"])
         s = self.r.choice(UNI_LITS if uni else ASCII_LITS)
+        if self.coin(self.p.get("p_ws_lit", 0.03)):
+            s = self.r.choice(WS_LITS)  # literals that begin/end with whitespace characters (also in skipping rules)
         insens = (not uni or s.isascii()) and self.coin(self.p["p_insens"])
         if insens:
             s = "".join(c.upper() if self.coin(0.5) else c for c in s)
@@ -525,6 +529,9 @@ class Gen:
             base = Seq([Neg(Ref("LRec")), Ref("LAtom", "r")]) if self.coin(0.5) else Seq([Ref("LAtom", "r"), Neg(Lit(ops[0] + ops[0]))])
             rules.append(Rule("LRec", Cho([rec, base]), ["leftrec"] + d_pos()))
             entry = "LRec"
+        for ru in rules:
+            if "leftrec" in ru.directives and self.coin(0.25):
+                ru.directives.insert(self.r.randint(0, len(ru.directives)), "memoize")
         # checks on the left-recursive rule itself: a check that rejects one growth step must stop the growth there
         for ru in rules:
             if "leftrec" in ru.directives and not ru.checks():
